@@ -25,6 +25,7 @@ From V Require Import Spec.Doc.
 From V Require Import Gen.Consts Model.Caps.
 From V Require Import Gen.Special Model.Special Spec.Triggers.
 From V Require Import Gen.RtOutc Spec.RoundTrip.
+From V Require Import Model.Inlines.
 Extraction Language OCaml.
 Set Extraction KeepSingleton.
 
@@ -299,4 +300,8 @@ Extraction "model.ml"
   RoundTrip.tree_classes
   RoundTrip.unescape_backslashes
   RoundTrip.escape_all
+  Inlines.run_inlines
+  Inlines.postprocess_block
+  Inlines.mkIO
+  Inlines.mkOracle
 .
